@@ -319,6 +319,8 @@ static void name_order_family(void)
         /* names that agree up to and including an embedded 0x00 and differ only after it (a comparison that stops at the NUL sees them as equal) */
         { { "k\0a", "k\0b" }, { 3, 3 } }, { { "k\0b", "k\0a" }, { 3, 3 } }, { { "k\0b", "k\0aa" }, { 3, 4 } }, { { "\0", "\0\0" }, { 1, 2 } }, { { "\0\0", "\0" }, { 2, 1 } },
         /* two differences inside one 8-byte word that order the names in opposite ways (a word-at-a-time comparison without a byte-order fix) */
+        /* same first byte, different lengths, neither a prefix of the other: the longer one is the smaller (a length shortcut taken before the bytes are compared) */
+        { { "aab", "ab" }, { 3, 2 } }, { { "ab", "aab" }, { 2, 3 } }, { { "ice", "id" }, { 3, 2 } }, { { "b", "aaa" }, { 1, 3 } },
         { { "temp_max", "temp_min" }, { 8, 8 } }, { { "temp_min", "temp_max" }, { 8, 8 } }, { { "qqqqqqaz", "qqqqqqba" }, { 8, 8 } }, { { "az", "ba" }, { 2, 2 } }, { { "aqqqqqqqz", "bqqqqqqqa" }, { 9, 9 } }
     };
     static uint8_t doc[140000], P[65537];
@@ -555,7 +557,7 @@ int main(int argc, char **argv)
              "sequence of <= 3 tokens, every framed sequence of <= %d tokens over the %d-token core alphabet; every valid document with <= %d value tokens over 12 "
              "leaf classes (all integer widths, empty/short/2-byte-length strings, bytes, double, booleans) and ALL mutants at deviation distance <= %d (distance 2 "
              "for documents of <= 2 values); nesting towers k in d-2..d+2 for d in {1,2,3,10,255}, 253..258 nested arrays; integer/length width family (35 values x 4 "
-             "widths x 4 roles), adjacent-name order family (16 common-prefix lengths up to 65537 x 19 suffix pairs incl. names differing only after an embedded NUL and pairs whose first and last difference inside one 8-byte word disagree), wide containers (255..65537 members); the %s corpus files; each x {object, array} x max_depth {1,2,3,10,255}",
+             "widths x 4 roles), adjacent-name order family (16 common-prefix lengths up to 65537 x 23 suffix pairs incl. names differing only after an embedded NUL and pairs whose first and last difference inside one 8-byte word disagree), wide containers (255..65537 members); the %s corpus files; each x {object, array} x max_depth {1,2,3,10,255}",
              L_FRAMED, VF_NTOK_HOSTILE, L_CORE, VF_NTOK_CORE, N_DOC, MUT_D, "220+1571");
     static const char *const assumptions[] = {
         "the reference recogniser (lib/vf_ref.h) is a correct reading of BINSON-SPEC-1 / binson_defines.h; it shares no code with the library and is cross-checked against the generator's trees in every other check",
